@@ -167,6 +167,28 @@ pub struct ChannelOutcome {
 
 type Extra<T> = (&'static str, fn(&[u8]) -> Result<T, String>);
 
+/// Ordinary documents decoded through the library's own entry points (results ignored): 1 = a link, then
+/// a layout; 2 = a layout, then a link; 0 = nothing.
+fn warm_up(order: u64) {
+    const LINK: &[u8] = br#"{"_type":"link","name":"warm-up","materials":{},"products":{},"byproducts":{},"command":[],"environment":null}"#;
+    const LAYOUT: &[u8] = br#"{"_type":"layout","expires":"2030-01-01T00:00:00Z","readme":"","keys":{},"steps":[],"inspect":[]}"#;
+    let docs: &[&[u8]] = match order {
+        1 => &[LINK, LAYOUT],
+        2 => &[LAYOUT, LINK],
+        _ => &[],
+    };
+    for d in docs {
+        let _ = in_toto::models::MetadataWrapper::try_from_bytes(d);
+        let _ = in_toto::models::MetablockBuilder::from_raw_metadata(d);
+        let _ = Json::from_slice::<in_toto::models::MetadataWrapper>(d);
+        let _ = Json::from_reader::<_, in_toto::models::MetadataWrapper>(*d);
+        if let Ok(v) = serde_json::from_slice::<Value>(d) {
+            let _ = Json::deserialize::<in_toto::models::MetadataWrapper>(&v);
+        }
+    }
+    // (the last one decoded is a layout for order 1, a link for order 2)
+}
+
 fn decode_all<T: DeserializeOwned + PartialEq + Send + 'static>(t: &ChannelTrace, texts: Vec<(&'static str, String)>, scratch_file: std::path::PathBuf, dev: u64) -> ChannelOutcome {
     decode_all_ext::<T>(t, texts, scratch_file, dev, vec![])
 }
@@ -176,6 +198,9 @@ fn decode_all_ext<T: DeserializeOwned + PartialEq + Send + 'static>(t: &ChannelT
     let t2 = t.clone();
     let r = exec::silenced(|| {
         exec::in_fresh_thread(t.io_seed, move || {
+            // what this thread decoded before must not matter: in two runs out of three some ordinary
+            // documents go through the library's decoding entry points first, on this very thread
+            warm_up(t2.io_seed % 3);
             let mut results: Vec<ChanResult> = vec![];
             let mut values: Vec<Option<T>> = vec![];
             let mut io = (0, 0, 0);
@@ -425,6 +450,8 @@ pub fn run_channel(t: &ChannelTrace, scratch: &Scratch) -> ChannelOutcome {
                     clock: &[(1_790_000_000, 0)],
                     hash_seed: t.io_seed,
                     step_name: None,
+                    same_thread: false,
+                    mem_sigdup: vec![],
                 };
                 let r = crate::exec::verify(&call);
                 if t.file_faults.is_some() {
